@@ -53,6 +53,32 @@ CALLBACK_TYPE = {"match_reset_func": "X → Wt → Nat → P → C → Bool"}
 PARAM_TYPES = {"x": "X", "match_tracking": "Art.MT", "epsilon": "α"}
 
 
+# ------------------------------------------------------------------------------------------------ types
+# atoms are strings ("Nat", "Bool", "X", "Wt", "P", "C", "α", "Art.MT"); ("list", t); ("opt", t); ("prod", [t...])
+SELF_TYPES = {"W": ("list", "Wt"), "weight_sample_counter_": ("list", "Nat"), "sample_counter_": "Nat", "params": "P"}
+EXTERNAL_RET = {"category_choice": ("prod", [("opt", "α"), "C"]), "match_criterion_bin": ("prod", ["Bool", "C"]),
+                "update": "Wt", "new_weight": "Wt", "_match_tracking": "Bool", "_match_tracking_operator": "Bool"}
+RET_TYPE = "Art.Imp.Self Wt P × Nat"
+
+
+def lean_ty(t) -> str:
+    if isinstance(t, str):
+        return t
+    if t[0] == "list":
+        return f"List ({lean_ty(t[1])})" if not isinstance(t[1], str) else f"List {t[1]}"
+    if t[0] == "opt":
+        return f"Option {lean_ty(t[1])}" if isinstance(t[1], str) else f"Option ({lean_ty(t[1])})"
+    if t[0] == "prod":
+        return " × ".join(lean_ty(x) if isinstance(x, str) or x[0] != "prod" else f"({lean_ty(x)})" for x in t[1])
+    raise Unsupported(f"type {t}")
+
+
+def elem_ty(t, what):
+    if isinstance(t, tuple) and t[0] == "list":
+        return t[1]
+    raise Unsupported(f"{what}: not a list ({t})")
+
+
 def strip_doc(body):
     return [s for s in body if not (isinstance(s, ast.Expr) and isinstance(s.value, ast.Constant) and isinstance(s.value.value, str))]
 
@@ -78,16 +104,23 @@ class Env:
         self.in_loop = False
         self.callbacks: set[str] = set()
         self.rec = None                     # shared (not copied) log of every binding, for the analyses
+        self.types: dict[str, object] = {v[0]: SELF_TYPES[a] for a, v in SELF_FIELDS.items()}   # lean identifier -> type
+        self.helpers: list[str] = []        # shared: top-level helper definitions (loop conditions / bodies)
+        self.fn = ""
 
     def copy(self):
         e = Env(self.tree, self.cls)
         e.names, e.bound, e.prefix, e.in_loop, e.callbacks = dict(self.names), list(self.bound), self.prefix, self.in_loop, set(self.callbacks)
         e.rec = self.rec
+        e.types, e.helpers, e.fn = dict(self.types), self.helpers, self.fn
         return e
 
-    def bind(self, py: str) -> str:
+    def bind(self, py: str, ty=None) -> str:
         ln = self.prefix + py
         self.names[py] = ln
+        if ty is None:
+            raise Unsupported(f"no type for {py}")
+        self.types[ln] = ty
         self._mark(ln)
         return ln
 
@@ -175,52 +208,61 @@ def attrs_written(env: Env, m: str) -> set[str]:
     return out
 
 
-def ex(e: ast.AST, env: Env) -> str:
+def ext(e: ast.AST, env: Env):
+    """expression -> (lean text, type)"""
     if isinstance(e, ast.Name):
         if e.id in env.names:
-            return env.names[e.id]
+            ln = env.names[e.id]
+            return ln, env.types.get(ln)
         raise Unsupported(f"unbound name {e.id}")
     if isinstance(e, ast.Constant):
         v = e.value
         if v is None:
-            return "E.noneC"
+            return "E.noneC", "C"
         if isinstance(v, bool):
-            return "true" if v else "false"
+            return ("true" if v else "false"), "Bool"
         if isinstance(v, int) and v >= 0:
-            return str(v)
+            return str(v), "Nat"
         if isinstance(v, str) and v in MODE_CTOR:
-            return "Art.MT" + MODE_CTOR[v]
+            return "Art.MT" + MODE_CTOR[v], "Art.MT"
         raise Unsupported(f"constant {v!r}")
     a = is_self_attr(e)
     if a is not None:
         if a not in SELF_FIELDS:
             raise Unsupported(f"read of self.{a}")
-        return SELF_FIELDS[a][0]
+        return SELF_FIELDS[a][0], env.types[SELF_FIELDS[a][0]]
     if isinstance(e, ast.Attribute) and ast.unparse(e) == "np.nan":
-        return "none"
+        return "none", ("opt", "α")
     if isinstance(e, ast.Tuple):
-        return "(" + ", ".join(ex(t, env) for t in e.elts) + ")"
+        parts = [ext(t, env) for t in e.elts]
+        return "(" + ", ".join(t for t, _ in parts) + ")", ("prod", [ty for _, ty in parts])
     if isinstance(e, ast.IfExp):
-        return f"(if {ex(e.test, env)} then {ex(e.body, env)} else {ex(e.orelse, env)})"
+        bt, bty = ext(e.body, env)
+        ot, oty = ext(e.orelse, env)
+        if bty != oty:
+            raise Unsupported(f"branches of {ast.unparse(e)[:60]} have types {bty} / {oty}")
+        return f"(if {ex(e.test, env)} then {bt} else {ot})", bty
     if isinstance(e, ast.BoolOp):
         op = " && " if isinstance(e.op, ast.And) else " || "
-        return "(" + op.join(ex(v, env) for v in e.values) + ")"
+        return "(" + op.join(ex(v, env) for v in e.values) + ")", "Bool"
     if isinstance(e, ast.UnaryOp) and isinstance(e.op, ast.Not):
-        return f"(!{ex(e.operand, env)})"
+        return f"(!{ex(e.operand, env)})", "Bool"
     if isinstance(e, ast.BinOp) and isinstance(e.op, ast.Add):
-        return f"({ex(e.left, env)} + {ex(e.right, env)})"
+        lt, lty = ext(e.left, env)
+        return f"({lt} + {ex(e.right, env)})", lty
     if isinstance(e, ast.Compare) and len(e.ops) == 1:
         l, r, op = e.left, e.comparators[0], e.ops[0]
         if isinstance(op, (ast.Is, ast.IsNot)) and isinstance(r, ast.Constant) and r.value is None and isinstance(l, ast.Name) \
                 and l.id in env.callbacks:
-            return f"{env.names[l.id]}_is_none" if isinstance(op, ast.Is) else f"(!{env.names[l.id]}_is_none)"
+            return (f"{env.names[l.id]}_is_none" if isinstance(op, ast.Is) else f"(!{env.names[l.id]}_is_none)"), "Bool"
         if isinstance(op, ast.Eq):
-            return f"({ex(l, env)} == {ex(r, env)})"
+            return f"({ex(l, env)} == {ex(r, env)})", "Bool"
         if isinstance(op, ast.In) and isinstance(r, ast.List):
-            return f"([{', '.join(ex(t, env) for t in r.elts)}].contains {ex(l, env)})"
+            return f"([{', '.join(ex(t, env) for t in r.elts)}].contains {ex(l, env)})", "Bool"
         raise Unsupported(f"comparison {ast.unparse(e)}")
     if isinstance(e, ast.Subscript) and isinstance(e.ctx, ast.Load) and not isinstance(e.slice, ast.Slice):
-        return f"({ex(e.value, env)})[{ex(e.slice, env)}]!"
+        bt, bty = ext(e.value, env)
+        return f"({bt})[{ex(e.slice, env)}]!", elem_ty(bty, ast.unparse(e))
     if isinstance(e, ast.ListComp):
         if len(e.generators) != 1 or e.generators[0].ifs or e.generators[0].is_async:
             raise Unsupported("list comprehension shape")
@@ -228,14 +270,18 @@ def ex(e: ast.AST, env: Env) -> str:
         inner = env.copy()
         inner.rec = None          # comprehension variables do not leak
         if isinstance(g.target, ast.Name):
-            v = inner.bind(g.target.id)
-            return f"(({ex(g.iter, env)}).map (fun {v} => {ex(e.elt, inner)}))"
+            it, ity = ext(g.iter, env)
+            v = inner.bind(g.target.id, elem_ty(ity, "comprehension source"))
+            et, ety = ext(e.elt, inner)
+            return f"(({it}).map (fun {v} => {et}))", ("list", ety)
         if (isinstance(g.target, ast.Tuple) and len(g.target.elts) == 2 and all(isinstance(t, ast.Name) for t in g.target.elts)
                 and isinstance(g.iter, ast.Call) and isinstance(g.iter.func, ast.Name) and g.iter.func.id == "enumerate"
                 and len(g.iter.args) == 1 and not g.iter.keywords):
-            i = inner.bind(g.target.elts[0].id)
-            v = inner.bind(g.target.elts[1].id)
-            return f"((List.zipIdx ({ex(g.iter.args[0], env)})).map (fun ({v}, {i}) => {ex(e.elt, inner)}))"
+            it, ity = ext(g.iter.args[0], env)
+            i = inner.bind(g.target.elts[0].id, "Nat")
+            v = inner.bind(g.target.elts[1].id, elem_ty(ity, "enumerate source"))
+            et, ety = ext(e.elt, inner)
+            return f"((List.zipIdx ({it})).map (fun ({v}, {i}) => {et}))", ("list", ety)
         raise Unsupported("list comprehension target")
     if isinstance(e, ast.Call):
         src = ast.unparse(e)
@@ -248,43 +294,78 @@ def ex(e: ast.AST, env: Env) -> str:
                     raise Unsupported(f"self.{m} writes {writes} and is used inside an expression")
                 if signature_of(env, m) != names:
                     raise Unsupported(f"signature of {m} is {signature_of(env, m)}")
-                return "(E." + field + " " + " ".join(arg(x, env) for x in order_args(call, names, m)) + ")"
+                return "(E." + field + " " + " ".join(arg(x, env) for x in order_args(call, names, m)) + ")", EXTERNAL_RET[m]
             if m in INLINE:
                 f = find_function(env.tree, env.cls, m)
                 body = strip_doc(f.body)
                 if len(body) == 1 and isinstance(body[0], ast.Return) and not signature_of(env, m) and not call.args and not call.keywords:
-                    return ex(body[0].value, env)
+                    return ext(body[0].value, env)
                 raise Unsupported(f"self.{m} inside an expression")
             raise Unsupported(f"call of self.{m}")
         if isinstance(e.func, ast.Name):
             fn = e.func.id
             if fn in env.callbacks:
                 names = CALLBACKS[fn]
-                return "(" + env.names[fn] + " " + " ".join(arg(x, env) for x in order_args(e, names, fn)) + ")"
+                return "(" + env.names[fn] + " " + " ".join(arg(x, env) for x in order_args(e, names, fn)) + ")", "Bool"
             if fn == "len" and len(e.args) == 1:
-                return f"({ex(e.args[0], env)}).length"
+                return f"({ex(e.args[0], env)}).length", "Nat"
             if fn == "deepcopy" and len(e.args) == 1:
-                return ex(e.args[0], env)
+                return ext(e.args[0], env)
             if fn == "any" and src.startswith("any(~np.isnan(") and isinstance(e.args[0], ast.UnaryOp):
                 inner = e.args[0].operand
                 if isinstance(inner, ast.Call) and len(inner.args) == 1:
-                    return f"(({ex(inner.args[0], env)}).any Option.isSome)"
+                    return f"(({ex(inner.args[0], env)}).any Option.isSome)", "Bool"
             if fn == "int" and len(e.args) == 1 and isinstance(e.args[0], ast.Call):
                 c2 = e.args[0]
                 name2 = ast.unparse(c2.func)
                 if name2 == "np.nanargmax" and len(c2.args) == 1:
-                    return f"((Art.nanargmax {ex(c2.args[0], env)}).getD 0)"
+                    return f"((Art.nanargmax {ex(c2.args[0], env)}).getD 0)", "Nat"
                 if name2 == "np.argmax" and len(c2.args) == 1:
-                    return f"((Art.argmaxNp {ex(c2.args[0], env)}).getD 0)"
+                    return f"((Art.argmaxNp {ex(c2.args[0], env)}).getD 0)", "Nat"
         if ast.unparse(e.func) == "np.array" and len(e.args) == 1 and not e.keywords:
-            return ex(e.args[0], env)
+            return ext(e.args[0], env)
         raise Unsupported(f"call {src[:80]}")
     raise Unsupported(f"expression {ast.unparse(e)[:80]}")
+
+
+def ex(e: ast.AST, env: Env) -> str:
+    return ext(e, env)[0]
 
 
 def arg(e: ast.AST, env: Env) -> str:
     t = ex(e, env)
     return t if t.replace("_", "a").replace(".", "a").isalnum() else f"({t})"
+
+
+def tuple_pat(names):
+    return names[0] if len(names) == 1 else "(" + ", ".join(names) + ")"
+
+
+def free_vars(text: str, env: Env, exclude=()) -> list[str]:
+    """identifiers of the environment that occur in `text`, in a stable order"""
+    import re
+    toks = set(re.findall(r"[A-Za-z_][A-Za-z_0-9]*", text))
+    out = []
+    for ln in list(env.types):
+        if ln in toks and ln not in exclude and ln not in out:
+            out.append(ln)
+    for cb in env.callbacks:
+        for ln in (env.names[cb] + "_is_none", env.names[cb]):
+            if ln in toks and ln not in out:
+                out.append(ln)
+    return out
+
+
+def param_decl(ln: str, env: Env) -> str:
+    for cb in env.callbacks:
+        if ln == env.names[cb]:
+            return f"({ln} : {CALLBACK_TYPE[cb]})"
+        if ln == env.names[cb] + "_is_none":
+            return f"({ln} : Bool)"
+    return f"({ln} : {lean_ty(env.types[ln])})"
+
+
+HEADER_CLASSES = "{X Wt P C α : Type} [LT α] [DecidableRel (α := α) (· < ·)] [Inhabited Wt] [Inhabited C]"
 
 
 # ----------------------------------------------------------------------------------------------- statements
@@ -319,8 +400,9 @@ def tr_block(stmts, env: Env, k: K) -> list[str]:
         a = is_self_attr(s.target)
         if a is not None:
             old = ex(s.target, env)
+            rhs = ex(s.value, env)
             v = env.bind_self(a)
-            return cont([f"let {v} := {old} + {ex(s.value, env)}"])
+            return cont([f"let {v} := {old} + {rhs}"])
         if isinstance(s.target, ast.Subscript) and is_self_attr(s.target.value) is not None:
             a = is_self_attr(s.target.value)
             old = ex(s.target.value, env)
@@ -337,9 +419,12 @@ def tr_block(stmts, env: Env, k: K) -> list[str]:
         if (isinstance(t, ast.Tuple) and all(isinstance(x, ast.Name) for x in t.elts) and isinstance(s.value, ast.Call)
                 and isinstance(s.value.func, ast.Name) and s.value.func.id == "zip" and len(s.value.args) == 1
                 and isinstance(s.value.args[0], ast.Starred) and len(t.elts) == 2):
-            lst = ex(s.value.args[0].value, env)
-            a = env.bind(t.elts[0].id)
-            b = env.bind(t.elts[1].id)
+            lst, lty = ext(s.value.args[0].value, env)
+            et = elem_ty(lty, "zip(*…)")
+            if not (isinstance(et, tuple) and et[0] == "prod" and len(et[1]) == 2):
+                raise Unsupported("zip(*…) of something that is not a list of pairs")
+            a = env.bind(t.elts[0].id, ("list", et[1][0]))
+            b = env.bind(t.elts[1].id, ("list", et[1][1]))
             return cont([f"let zipped_ := {lst}", f"let {a} := zipped_.map Prod.fst", f"let {b} := zipped_.map Prod.snd"])
         sc = self_call(s.value)
         if sc and sc[0] in EXTERNAL and EXTERNAL[sc[0]][2]:
@@ -355,16 +440,18 @@ def tr_block(stmts, env: Env, k: K) -> list[str]:
             rhs = "E." + field + " " + " ".join(arg(x, env) for x in args)
             if not isinstance(t, ast.Name):
                 raise Unsupported(f"{m}: result target")
-            r = env.bind(t.id)
+            r = env.bind(t.id, EXTERNAL_RET[m])
             ws = [env.bind_self(w) for w in writes]
             return cont([f"let ({r}, {', '.join(ws)}) := {rhs}"])
         if isinstance(t, ast.Name):
-            rhs = ex(s.value, env)
-            v = env.bind(t.id)
+            rhs, rty = ext(s.value, env)
+            v = env.bind(t.id, rty)
             return cont([f"let {v} := {rhs}"])
         if isinstance(t, ast.Tuple) and all(isinstance(x, ast.Name) for x in t.elts):
-            rhs = ex(s.value, env)
-            vs = [env.bind(x.id) for x in t.elts]
+            rhs, rty = ext(s.value, env)
+            if not (isinstance(rty, tuple) and rty[0] == "prod" and len(rty[1]) == len(t.elts)):
+                raise Unsupported(f"tuple assignment from {rty}")
+            vs = [env.bind(x.id, ty_) for x, ty_ in zip(t.elts, rty[1])]
             return cont([f"let ({', '.join(vs)}) := {rhs}"])
         a = is_self_attr(t)
         if a is not None:
@@ -374,12 +461,12 @@ def tr_block(stmts, env: Env, k: K) -> list[str]:
         if isinstance(t, ast.Subscript):
             base = t.value
             a = is_self_attr(base)
-            old = ex(base, env)
+            old, oty = ext(base, env)
             rhs = ex(s.value, env)
             if a is not None:
                 v = env.bind_self(a)
             elif isinstance(base, ast.Name):
-                v = env.bind(base.id)
+                v = env.bind(base.id, oty)
             else:
                 raise Unsupported(f"store into {ast.unparse(base)}")
             if isinstance(t.slice, ast.Slice):
@@ -400,20 +487,16 @@ def tr_block(stmts, env: Env, k: K) -> list[str]:
                 raise Unsupported(f"inlined {m} returns a value")
             lines = []
             saved_names, saved_prefix = dict(env.names), env.prefix
-            vals = [ex(a_, env) for a_ in args]
+            vals = [ext(a_, env) for a_ in args]
             env.prefix = m.strip("_") + "_"
-            inner_names = {}
-            for n_, v_ in zip(names, vals):
-                ln = env.prefix + n_
-                inner_names[n_] = ln
+            env.names = {cb: saved_names[cb] for cb in env.callbacks if cb in saved_names}
+            for n_, (v_, ty_) in zip(names, vals):
+                ln = env.bind(n_, ty_)
                 lines.append(f"let {ln} := {v_}")
-            env.names = inner_names
-            marker = []
 
-            def after(e2):
-                marker.append(True)
-                return []
-            lines += tr_block(body, env, K(after, lambda t_: (_ for _ in ()).throw(Unsupported("return in inlined body"))))
+            def bad_ret(t_):
+                raise Unsupported("return in inlined body")
+            lines += tr_block(body, env, K(lambda e2: [], bad_ret))
             env.names, env.prefix = saved_names, saved_prefix
             return cont(lines)
         if isinstance(s.value, ast.Call) and isinstance(s.value.func, ast.Attribute) and s.value.func.attr == "append" \
@@ -434,6 +517,7 @@ def tr_block(stmts, env: Env, k: K) -> list[str]:
         before = env.defined()
         d1, d2 = env.copy(), env.copy()
         d1.rec, d2.rec = [], []
+        d1.helpers, d2.helpers = [], []
         nothing = K(lambda e_: [], lambda t_: "")
         tr_block(s.body, d1, nothing)
         tr_block(s.orelse, d2, nothing)
@@ -441,7 +525,7 @@ def tr_block(stmts, env: Env, k: K) -> list[str]:
                   if v in before or (v in d1.rec and v in d2.rec)]
         if not export:
             return tr_block(rest, env, k)
-        tup = export[0] if len(export) == 1 else "(" + ", ".join(export) + ")"
+        tup = tuple_pat(export)
         e1, e2 = env.copy(), env.copy()
         a = tr_block(s.body, e1, K(lambda e_: [tup], None))
         b = tr_block(s.orelse, e2, K(lambda e_: [tup], None))
@@ -450,6 +534,7 @@ def tr_block(stmts, env: Env, k: K) -> list[str]:
             for py, ln in e_.names.items():
                 if ln in export:
                     env.names[py] = ln
+                    env.types[ln] = e_.types[ln]
         for v in export:
             env._mark(v)
         return cont([f"let {tup} := (", f"  if {c} then"] + ind(a, 4) + ["  else"] + ind(b, 4)[:-1] + [ind(b, 4)[-1] + ")"])
@@ -459,27 +544,46 @@ def tr_block(stmts, env: Env, k: K) -> list[str]:
         before = env.defined()
         d = env.copy()
         d.rec = []
+        d.helpers = []
         tr_block(s.body, d, K(lambda e_: [], lambda t_: ""))
         carried = [v for v in d.rec if v in before]
         if not carried:
             raise Unsupported("while loop that changes nothing")
-        tup = carried[0] if len(carried) == 1 else "(" + ", ".join(carried) + ")"
-        ce = env.copy()
-        cond = ex(s.test, ce)
+        tup = tuple_pat(carried)
+        state_ty = lean_ty(("prod", [env.types[v] for v in carried])) if len(carried) > 1 else lean_ty(env.types[carried[0]])
+        cond = ex(s.test, env.copy())
         be = env.copy()
         be.in_loop = True
         body = tr_block(s.body, be, K(lambda e_: [f".next {tup}"], lambda t_: f".ret {t_}"))
+        # condition and body become top-level definitions, parameterised by the variables they read
+        k_ = sum(1 for h in env.helpers if h.startswith("/-- loop")) // 2 + 1
+        cname, bname = f"{env.fn}_loop{k_}_cond", f"{env.fn}_loop{k_}_body"
+        cfv = free_vars(cond, env, exclude=carried)
+        bfv = free_vars("\n".join(body), env, exclude=carried)
+        env.helpers.append("\n".join(
+            [f"/-- loop {k_} of `{env.cls}.{env.fn}`: the `while` condition `{ast.unparse(s.test)}` -/",
+             f"def {cname} {HEADER_CLASSES}",
+             "    (E : Art.Imp.Ext X Wt P C α) " + " ".join(param_decl(v, env) for v in cfv) + f" :",
+             f"    {state_ty} → Bool :=",
+             f"  fun {tup} => {cond}"]) + "\n")
+        env.helpers.append("\n".join(
+            [f"/-- loop {k_} of `{env.cls}.{env.fn}`: one iteration of the body -/",
+             f"def {bname} {HEADER_CLASSES}",
+             "    (E : Art.Imp.Ext X Wt P C α) " + " ".join(param_decl(v, env) for v in bfv) + " :",
+             f"    {state_ty} → Art.Imp.Flow ({RET_TYPE}) ({state_ty}) :=",
+             f"  fun {tup} =>"] + ind(body, 4)) + "\n")
         for v in carried:
             env._mark(v)
         after = tr_block(rest, env, k)
-        return ([f"match Art.Imp.whileFuel (fun {tup} => {cond})", f"    (fun {tup} =>"] + ind(body, 6)[:-1] + [ind(body, 6)[-1] + ")",
-                f"    fuel {tup} with", f"| .ret r_ => {k.ret('r_')}", f"| .next {tup} =>"] + ind(after))
+        return ([f"match Art.Imp.whileFuel ({cname} E {' '.join(cfv)}) ({bname} E {' '.join(bfv)}) fuel {tup} with",
+                 f"| .ret r_ => {k.ret('r_')}", f"| .next {tup} =>"] + ind(after))
     raise Unsupported(f"statement {type(s).__name__}: {ast.unparse(s)[:80]}")
 
 
 def translate_method(tree, cls: str, name: str) -> str:
     f = find_function(tree, cls, name)
     env = Env(tree, cls)
+    env.fn = name
     params = []
     a = f.args
     if a.vararg or a.kwarg or a.kwonlyargs or a.posonlyargs:
@@ -491,17 +595,20 @@ def translate_method(tree, cls: str, name: str) -> str:
             params += [f"({x.arg}_is_none : Bool)", f"({x.arg} : {CALLBACK_TYPE[x.arg]})"]
         elif x.arg in PARAM_TYPES:
             env.names[x.arg] = x.arg
+            env.types[x.arg] = PARAM_TYPES[x.arg]
             params.append(f"({x.arg} : {PARAM_TYPES[x.arg]})")
         else:
             raise Unsupported(f"{name}: parameter {x.arg}")
-    k = K(lambda e_: (_ for _ in ()).throw(Unsupported(f"{name}: a path ends without return")), lambda t_: t_)
-    body = tr_block(f.body, env, k)
+
+    def no_fall(e_):
+        raise Unsupported(f"{name}: a path ends without return")
+    body = tr_block(f.body, env, K(no_fall, lambda t_: t_))
     head = [f"/-- generated from `{cls}.{name}` -/",
-            f"def {name} {{X Wt P C α : Type}} [LT α] [DecidableRel (α := α) (· < ·)] [Inhabited Wt] [Inhabited C]",
+            f"def {name} {HEADER_CLASSES}",
             f"    (E : Art.Imp.Ext X Wt P C α) (fuel : Nat) (self : Art.Imp.Self Wt P) " + " ".join(params) + " :",
-            f"    Art.Imp.Self Wt P × Nat :="]
+            f"    {RET_TYPE} :="]
     pre = [f"let {v} := self.{fld}" for v, fld in SELF_FIELDS.values()]
-    return "\n".join(head + ind(pre + body)) + "\n"
+    return "\n".join(env.helpers) + "\n" + "\n".join(head + ind(pre + body)) + "\n"
 
 
 def generate(repo: Path) -> str:
